@@ -1,5 +1,5 @@
 import sys, os
-from checks import apifam
+from checks import apifam, concfam
 from checks import c01, c03, c04, c05, c12
 sys.path.insert(0, os.path.join(os.path.dirname(os.path.dirname(os.path.abspath(__file__))), "tools"))
 import covering
@@ -31,10 +31,30 @@ def run(tier, seed):
                           "_builds": ["rel", "dbg"] if tier == "quick" else None})
     extra.append({"MIMALLOC_PURGE_DECOMMITS": "0", "MIMALLOC_EAGER_COMMIT": "0", "MIMALLOC_ARENA_EAGER_COMMIT": "0", "MIMALLOC_PURGE_DELAY": "0",
                   "_args": ["--workload", "reuse", "--rounds", "2"], "_tag": "reuse.dec0.lazy", "_builds": ["rel", "dbg"] if tier == "quick" else None})
+    # arenas of more than one bitmap field with lazy commit: an object across the field boundary whose first part is committed and whose last part is not
+    for dec in ("1", "0"):
+        extra.append({"MIMALLOC_ARENA_RESERVE": "4GiB", "MIMALLOC_ARENA_EAGER_COMMIT": "0", "MIMALLOC_PURGE_DECOMMITS": dec, "MIMALLOC_PURGE_DELAY": "100000",
+                      "_args": ["--workload", "fieldfill2", "--rounds", "1"], "_tag": "fieldfill2.dec%s" % dec, "_builds": ["rel", "dbg"] if tier == "quick" else None})
     # one execution per option row and build (quick: rows cycle over the builds)
     nr = (max(6, (n + 2) // 3), n)
-    return apifam.run_api("C13", tier, seed, profiles=["c01", "c04", "big", "c05", "c12", "c03", "big"], builds=["rel", "dbg", "sec"],
-                          own_guards=GUARDS, crash_decisive=True, nruns=nr, ops=(1500, 4000), maxlive=(100, 400), gen=(0, 0),
-                          extra_args=["--clock", "40"], envs=envs, shim=True, group=2, extra_runs=extra,
-                          level_extra={"option_rows": n, "option_rows_sample": rows[:3], "covering": "pairwise (greedy, seeded) over " + ", ".join(sorted(OPTS))},
-                          assumptions=["decommitted memory being read by the allocator is observable only in dbg/sec builds (PROT_NONE => crash event)"])
+    V, cov = apifam.run_api("C13", tier, seed, profiles=["c01", "c04", "big", "c05", "c12", "c03", "big"], builds=["rel", "dbg", "sec"],
+                            own_guards=GUARDS, crash_decisive=True, nruns=nr, ops=(1500, 4000), maxlive=(100, 400), gen=(0, 0),
+                            extra_args=["--clock", "40"], envs=envs, shim=True, group=2, extra_runs=extra, finish=False,
+                            level_extra={"option_rows": n, "option_rows_sample": rows[:3], "covering": "pairwise (greedy, seeded) over " + ", ".join(sorted(OPTS))})
+    # purging while other threads run: a thread that exits purges the free spans of the segments it leaves behind (abandoned_page_purge) while
+    # another thread adopts them and allocates there; purges at delay 0 next to allocation in shared arenas -- scheduled executions, the OS
+    # shim sees every purge, the model knows every live block (DestructiveAvoidsLive)
+    app = {"MIMALLOC_ABANDONED_PAGE_PURGE": "1"}
+    jobs = [{"prog": "exit", "strategy": "random", "runs": (120, 1500), "args": ["--rate", "3"], "env": dict(app, MIMALLOC_PURGE_DELAY="2000")},
+            {"prog": "exit", "strategy": "pct", "runs": (80, 1000), "args": [], "env": dict(app, MIMALLOC_PURGE_DELAY="2000")},
+            {"prog": "exit", "strategy": "random", "runs": (80, 1000), "args": ["--size", "60000", "65536", "--rate", "3"], "env": dict(app, MIMALLOC_PURGE_DELAY="0")},
+            {"prog": "exit", "strategy": "random", "runs": (60, 800), "args": ["--size", "150000", "200000", "--ownfree", "1"], "env": dict(app, MIMALLOC_PURGE_DELAY="2000", MIMALLOC_ABANDONED_RECLAIM_ON_FREE="1")},
+            {"prog": "exit", "strategy": "random", "runs": (80, 1000), "args": ["--size", "150000", "200000", "--ownfree", "1", "--rate", "3"], "env": dict(app, MIMALLOC_PURGE_DELAY="2000")},
+            {"prog": "exit", "strategy": "pct", "runs": (40, 600), "args": ["--size", "150000", "200000", "--ownfree", "1"], "env": {"MIMALLOC_PURGE_DELAY": "2000", "MIMALLOC_DISALLOW_ARENA_ALLOC": "1"}},
+            {"prog": "arena", "strategy": "random", "runs": (60, 800), "args": ["--rate", "3"], "env": {"MIMALLOC_PURGE_DELAY": "0"}}]
+    V, cov2 = concfam.run_conc("C13", tier, seed, jobs, {"DestructiveAvoidsLive", "LiveAccessible", "ContentsKept.gen", "ContentsKept.bytes", "NoOverlap", "ZeroOK", "Invariant.Inv"},
+                               mc=("MiSegment", ("MiSegment_mc.cfg", "MiSegment_mc.cfg")), guided_progs=(), V=V, finish=False)
+    cov["concurrent_purging"] = {k: cov2[k] for k in ("traces_validated_against_impl", "trace_events_validated", "programs", "strategies") if k in cov2}
+    cov["traces_validated_against_impl"] += cov2["traces_validated_against_impl"]
+    return V.finish("model_checking", cov, assumptions=["decommitted memory being read by the allocator is observable only in dbg/sec builds (PROT_NONE => crash event)",
+                                                         "concurrent part: SC interleavings at mi_atomic-macro granularity; a purge call of the OS layer is one event"])
